@@ -17,7 +17,7 @@
 
    This file holds only statements, each closed by [exact] of a lemma from
    Proofs/, followed by Print Assumptions; plus pins and examples. *)
-From RM Require Import Model.EncSpec Proofs.EncFmt Proofs.EncShape Proofs.EncSimple Proofs.EncImage.
+From RM Require Import Model.EncSpec Proofs.EncFmt Proofs.EncShape Proofs.EncSimple Proofs.EncImage Proofs.EncObjects Proofs.EncRound Proofs.EncTiming.
 From RM Require Import Gen.Generated.
 Open Scope Z_scope.
 
@@ -238,21 +238,90 @@ Theorem C04_file_name_misread_refuted :
 Proof. exists d23_text. exact d23_witness. Qed.
 Print Assumptions C04_file_name_misread_refuted.
 
+(* ---------- T04b for hit-object lines: circles, spinners, holds ---------- *)
+(* [object_ok h]: start time within the parse limits, integer coordinates within
+   +-131072, combo offset 0..7, end time start + duration within the limits, sample
+   banks / custom index / volume representable, sample file name without `,` `:` "//".
+   For EVERY parser state the line is accepted and adds exactly one object of the same
+   kind with the same start time and position ([adds]); nothing is dropped or misread
+   as another kind of record. *)
+
+Theorem C04_circle_line_accepted :
+  forall fmt_f64 fmt_f32 fmt_int, fmt_ok fmt_f64 fmt_f32 fmt_int ->
+  forall dist mode h c l,
+  h_kind h = KCircle c -> object_ok h = true -> object_line dist mode h = Done l ->
+  forall st, exists st', parse_hit_objects st (render fmt_f64 fmt_f32 fmt_int l) = Done (st', Ok) /\
+                         adds st st' (h_start h) 0 (Some (ci_pos c)).
+Proof. intros f64 f32 fi Hfmt dist mode h c l H1 H2 H3. exact (circle_line_accepted f64 f32 fi Hfmt dist mode h c l H1 H2 H3). Qed.
+Print Assumptions C04_circle_line_accepted.
+
+Theorem C04_spinner_line_accepted :
+  forall fmt_f64 fmt_f32 fmt_int, fmt_ok fmt_f64 fmt_f32 fmt_int ->
+  forall dist mode h s l,
+  h_kind h = KSpinner s -> object_ok h = true -> object_line dist mode h = Done l ->
+  forall st, exists st', parse_hit_objects st (render fmt_f64 fmt_f32 fmt_int l) = Done (st', Ok) /\
+                         adds st st' (h_start h) 2 None.
+Proof. intros f64 f32 fi Hfmt dist mode h s l H1 H2 H3. exact (spinner_line_accepted f64 f32 fi Hfmt dist mode h s l H1 H2 H3). Qed.
+Print Assumptions C04_spinner_line_accepted.
+
+Theorem C04_hold_line_accepted :
+  forall fmt_f64 fmt_f32 fmt_int, fmt_ok fmt_f64 fmt_f32 fmt_int ->
+  forall dist mode h hd l,
+  h_kind h = KHold hd -> object_ok h = true -> object_line dist mode h = Done l ->
+  forall st, exists st', parse_hit_objects st (render fmt_f64 fmt_f32 fmt_int l) = Done (st', Ok) /\
+                         adds st st' (h_start h) 3 (Some (mkPos (hd_pos_x hd) (hd_pos_x hd))).
+Proof. intros f64 f32 fi Hfmt dist mode h hd l H1 H2 H3. exact (hold_line_accepted f64 f32 fi Hfmt dist mode h hd l H1 H2 H3). Qed.
+Print Assumptions C04_hold_line_accepted.
+
+(* non-vacuity: the circle, the hold and the spinner of a decoded file satisfy [object_ok] *)
+Example decoded_objects_ok :
+  match decode_beatmap stub_dist (lines_of_text plain_text) with
+  | Done m => forallb object_ok (hov_hit_objects (bmv_ho m)) = true /\
+              map (fun h => kind_tag (h_kind h)) (hov_hit_objects (bmv_ho m)) = [0; 3; 2]
+  | _ => False
+  end.
+Proof. vm_compute. split; reflexivity. Qed.
+
+(* ---------- T04b for timing-point lines (line grammar) ---------- *)
+
+(* every body line of the [TimingPoints] section has the shape time,beat,sig,bank,custom,volume,flag,effects *)
+Theorem C04_timing_lines_shape :
+  forall c last gs ls, group_lines c last gs = Done ls ->
+  Forall (fun l => exists time beat p tc, l = tp_line time beat p tc) ls.
+Proof. intros c last gs ls H. exact (group_lines_shape c gs last ls H). Qed.
+Print Assumptions C04_timing_lines_shape.
+
+(* and such a line -- numbers within the parse limits, positive signature -- is accepted by the
+   decoder's field parser whatever the General settings, with the time, the beat-length field,
+   the custom index, the volume and the uninherited flag it was written from; so
+   parse_timing_points never answers Rejected for it *)
+Theorem C04_timing_line_accepted :
+  forall fmt_f64 fmt_f32 fmt_int, fmt_ok fmt_f64 fmt_f32 fmt_int ->
+  forall time beat p tc, tp_line_ok time beat p tc = true ->
+  forall g, exists r, parse_tp_line g (render fmt_f64 fmt_f32 fmt_int (tp_line time beat p tc)) = Some r /\
+                      l_time r = time /\ l_tc r = tc /\ l_beat r = beat /\ l_custom r = pr_custom p /\ l_vol r = pr_vol p.
+Proof. intros f64 f32 fi Hfmt time beat p tc H. exact (tp_line_accepted f64 f32 fi Hfmt time beat p tc H). Qed.
+Print Assumptions C04_timing_line_accepted.
+
 (* ---------- what is not proved here (full statements kept visible) ----------
 
-   T04b for timing-point lines [P]:
-     forall m ls tp, (C04_shape decomposition) -> simple_ok m = true ->
-       Forall (fun l => forall st, exists st', parse_timing_points st (render l) = Done (st', Ok)) tp.
-   Needs: time / beat length / -100/sv within the parse limits (the slider velocity is
-   clamped to [0.1, 10] and times are finite by C12's value theorems, but sample times
-   collected from hit objects -- start + duration -- can exceed the limit by rounding),
-   signature > 0, bank/custom/volume within i32.  Covered by the `enc` correspondence and
-   the C04 oracle (every encoded timing line is parsed with Beatmap::parse_timing_points).
+   Timing-point lines, what is left [P]:
+     [tp_line_ok] for the lines that enc_timing_points actually writes: signature > 0, bank /
+     custom / volume / effect flags within i32 and the clamped beat length / slider velocity
+     follow from C12's value theorems; the TIMES do not: sample points collected from hit
+     objects sit at start + duration, which can leave the parse limit by rounding (side
+     condition exercised by the oracle).  parse_timing_points itself is total on sorted
+     control points (C13), so "accepted" = "parse_tp_line returns the record".
 
-   T04b / T04c for hit-object lines [P]:
-     circles / spinners / holds:  parse_hit_objects st (render (object_line mode h)) = Done (st', Ok)
-     and the pushed object equals h up to carry; sliders additionally outside D17 / D21.
-   Not mechanised in this package; covered by the `enc` correspondence (slider files
-   included, curve and slider-event models connected) and by the C04 / C02 oracles
-   (each encoded hit-object line is parsed, kind and start time compared, objects
-   compared field by field in C02).  Known classes there: D17, D21 (C04: D21). *)
+   Hit-object lines, what is left [P]:
+     (a) [object_ok] on the decoder's image: not mechanised (the invariant has to be carried
+         through the stable sort, the break post-processing and SamplePoint::apply of
+         MapLevel.v); a side condition that is NOT an invariant and is exercised by the oracle:
+         start + duration may leave the parse limit by rounding.
+     (b) sliders (outside D17 / D21):  parse_hit_objects st (render (object_line mode h))
+         = Done (st', Ok), same kind / start / position, same control points.
+     (c) T04c in full for hit objects (samples up to carry) is a map-level statement
+         (SamplePoint::apply runs after parsing): C02's T02b.
+   Covered by the `enc` correspondence (slider files included, curve and slider-event models
+   connected) and by the C04 / C02 oracles (each encoded hit-object line is parsed, kind and
+   start time compared; objects compared field by field in C02). *)
